@@ -87,6 +87,9 @@ def check(model, R, tier):
     R.rule('C18.BATCH', 'len = len(y) // batch_size; X and y are sliced with equal bounds idx*b : idx*b + b; __next__ yields batch number step, advances step by one, stops at len; __iter__ restarts from 0', floor=5)
     R.rule('C18.OPTIONAL-CALL', 'the optional transform (constructor default None) is called only when present, with the sliced batch; without it the batch is returned unchanged', floor=2)
     R.rule('C18.ONEHOT', 'one_hot_encode puts the 1 at the index of the label among the sorted distinct labels; row length = number of distinct labels; rows in the order of y', floor=3)
+    from sa import rules_hygiene as _H
+    _H.check_memo(model, R, 'C18')
+    _H.check_global_state(model, R, 'C18', modules=('synapgrad.nn.utils.data',), floor=2)
     try:
         check_split(model, R)
     except Incomplete as u:
